@@ -38,6 +38,7 @@ class C02(Check):
             ("pkg", 3, 7 if Q else 9, P2, ("f",)),
             ("pkg2", 3, 8 if Q else 10, P2, ("f",)),
             ("apply", 4, 7 if Q else 8, P2, ("f",)),
+            ("apply2", 4, 8 if Q else 9, P2, ("f",)),
             ("full", 1, 5 if Q else 6, P2, ("f", "m")),
             ("fusion", 5, 7 if Q else 8, P3, ("f",)),
             ("binders", 5, 6 if Q else 7, P3, ("f",)),
